@@ -94,6 +94,8 @@ Fold(c, k, s) ==
     [] OTHER -> Fold(c, k + 1, s)
 
 JudgeOK == LET c == Cases[i]
-               r == IF On({"C06"}) /\ c.twice # <<>> THEN <<1, "C06: a task object counted more than one Start() call">> ELSE Fold(c, 1, S0)
+               r == IF On({"C06"}) /\ c.twice # <<>> THEN <<1, "C06: a task object counted more than one Start() call">>
+                    ELSE IF On({"C07"}) /\ c.ghosts > 0 THEN <<1, "C07: a task of an earlier lane was started after that lane's Wait had returned (by a lane created later)">>
+                    ELSE Fold(c, 1, S0)
            IN r[1] = 0 \/ PrintT(<<"BAD", i, r[1], r[2]>>)
 =============================================================================
